@@ -192,6 +192,22 @@ CHECKS = {
             {"run": "^TestC13DumpRestore$", "n": {"quick": 5000, "thorough": 50000}},
         ],
     },
+    "C14": {
+        "level": "fault_enumeration",
+        "technique": "property-based testing through an in-process RoundTripper with injected transport faults and complete enumeration of truncation offsets; gob types hash laws evaluated in fresh processes",
+        "design_ref": "DESIGN.md section 6 C14",
+        "text": "Named cache sets on both sides and C13-style entry sets are generated; the importer's Transport calls the "
+                "exporter's Export() handler in-process and injects per name: rewritten typesHash, non-200 with a valid body, "
+                "RoundTrip error, body read error; one small dump per case is additionally truncated at every byte offset. "
+                "The hash laws (order, repetition and process independence; sensitivity to an added type) are checked by "
+                "re-executing the test binary once per generated registration order.",
+        "note": "'Same in every process' is checked across fresh processes of this build on this machine only.",
+        "assumptions": ["exporter and importer live in one process and share GobTypesHash; a mismatch is simulated by rewriting the typesHash query parameter"],
+        "jobs": [
+            {"run": "^TestC14Transfer$", "n": {"quick": 600, "thorough": 6000}, "shrinktime": "30s"},
+            {"run": "^TestC14HashLaws$", "n": {"quick": 60, "thorough": 600}},
+        ],
+    },
     "C15": {
         "level": "fault_enumeration",
         "technique": "model-based property testing of label/key incidence structures with the failing Delete position enumerated completely per structure; recovery (retry) oracle",
